@@ -127,7 +127,9 @@ type Sim struct {
 	bias                         string   // "", "grow", "shrink" (wide schemas)
 	initFns, newInitFns          []initFn // done functions of committed / this transaction's registrations
 	nextInit                     int
-	foreign                      int                            // divergences seen that belong to other checks' classes
+	foreign                      int // divergences seen that belong to other checks' classes
+	wseqs                        []*wseq
+	wseqChecks                   int
 	forceSet                     []*simTable                    // table set of the next RunTxn (nested transactions)
 	forced                       *forcedOp                      // the next RunTxn performs exactly this operation and commits
 	zombies                      []statedb.ChangeIterator[*Obj] // iterators created in transactions that aborted (kept reachable, not closed)
@@ -811,9 +813,15 @@ func (s *Sim) RunTxn(i int) {
 		switch x := s.Rng.IntN(100); {
 		case x < 72:
 			s.writeOp(what, wtxn, t, working[t], inSet[t])
+			if s.Rng.IntN(4) == 0 {
+				s.checkWSeqs("inside "+what, what, working)
+			}
 		case x < 90:
 			s.Logf("%s battery(wtxn) %s", what, t.name)
 			s.battery(what+" in-txn", wtxn, t, working[t], "query")
+			if s.Rng.IntN(3) == 0 {
+				s.takeWSeq(what, wtxn, t, working[t])
+			}
 		case x < 93 && s.O.Watches > 0:
 			s.takeWatches(what+" in-txn", wtxn, t, working[t], false, map[bool]string{true: what, false: ""}[inSet[t]])
 		case x < 96 && s.O.Iterators:
@@ -834,7 +842,9 @@ func (s *Sim) RunTxn(i int) {
 	if s.forced == nil && s.Rng.IntN(100) < s.O.AbortPct {
 		s.Logf("%s Abort", what)
 		s.newInitFns = nil // done functions of registrations in an aborted transaction are never called
+		s.finishWSeqs(what, working)
 		wtxn.Abort()
+		s.checkWSeqs("after Abort of "+what, "", nil)
 		s.aborts++
 		s.abortIterators(what, wtxn)
 		s.watchesAfterAbort(what, s.txnBefore)
@@ -851,7 +861,9 @@ func (s *Sim) RunTxn(i int) {
 	for _, t := range set {
 		s.txnChanged[t] = working[t].Rev != t.committed.Rev
 	}
+	s.finishWSeqs(what, working)
 	rtxn := wtxn.Commit()
+	s.checkWSeqs("after Commit of "+what, "", nil)
 	for _, f := range s.newInitFns {
 		s.initFns = append(s.initFns, f)
 	}
@@ -938,6 +950,7 @@ func (s *Sim) Finish(nontrivial bool) {
 	s.R.Count("watch_verdicts", int64(s.watchVerdicts))
 	s.R.Count("commits", int64(s.commits))
 	s.R.Count("aborts", int64(s.aborts))
+	s.R.Count("retained_wtxn_sequences_reranged", int64(s.wseqChecks))
 	if s.R.WantSample() {
 		tail := s.Log
 		if len(tail) > 45 {
